@@ -30,6 +30,7 @@ META = {
               'symbolic character equalities)', 'Decimal(x, precision) rounding contract (quantized types)'],
     'assumptions': ['parsing the text form of a number gives the number back (dependency contract)'],
 }
+META['bounds'].append('user symbols also parsed before their declaration (rejected), currency text before / after registration')
 
 
 def setup(mode):
